@@ -117,6 +117,8 @@ def main(argv):
 
 
 def _run(prop, tier, seed, replay, no_build, t0):
+    import logging
+    logging.disable(logging.CRITICAL)   # aiohttp logs every rejected request; the verdict is ours
     guard()
     mod = importlib.import_module(f"harness.{prop.lower()}")
     findings = load_findings(prop)
@@ -276,11 +278,12 @@ def _run(prop, tier, seed, replay, no_build, t0):
         "wall_s": round(time.time() - t0, 2),
         "violations": len(new) + (1 if rc == 1 and not new else 0),
     }
-    os.makedirs(os.path.join(VERIF, "evidence"), exist_ok=True)
-    tmp = os.path.join(VERIF, "evidence", f".{prop}.json.tmp")
-    with open(tmp, "w") as f:
-        json.dump(ev, f, indent=1, default=repr)
-    os.replace(tmp, os.path.join(VERIF, "evidence", f"{prop}.json"))
+    if not no_build:   # a debugging run without proofs must not overwrite the evidence
+        os.makedirs(os.path.join(VERIF, "evidence"), exist_ok=True)
+        tmp = os.path.join(VERIF, "evidence", f".{prop}.json.tmp")
+        with open(tmp, "w") as f:
+            json.dump(ev, f, indent=1, default=repr)
+        os.replace(tmp, os.path.join(VERIF, "evidence", f"{prop}.json"))
 
     for l in out_lines:
         print(l)
